@@ -19,7 +19,7 @@ use rustc_hir::def::DefKind;
 use rustc_hir::def_id::{DefId, LOCAL_CRATE};
 use rustc_middle::mir::interpret::{GlobalAlloc, Scalar};
 use rustc_middle::mir::*;
-use rustc_middle::ty::{self, Instance, Ty, TyCtxt, TypingEnv};
+use rustc_middle::ty::{self, Instance, Ty, TyCtxt, TypeVisitableExt, TypingEnv};
 use rustc_span::Span;
 use std::collections::HashMap;
 use std::fmt::Write as _;
@@ -52,6 +52,12 @@ struct Cx<'tcx> {
 
 impl<'tcx> Cx<'tcx> {
     fn tyid(&mut self, ty: Ty<'tcx>) -> usize {
+        // evaluate named array lengths etc. (`[u8; MEMORY_SIZE]`) where the type is closed
+        let ty = if !ty.has_non_region_param() && !ty.has_escaping_bound_vars() {
+            self.tcx.try_normalize_erasing_regions(TypingEnv::fully_monomorphized(), ty::Unnormalized::new_wip(ty)).unwrap_or(ty)
+        } else {
+            ty
+        };
         if let Some(&i) = self.tymap.get(&ty) {
             return i;
         }
@@ -239,7 +245,38 @@ impl<'tcx> Cx<'tcx> {
                 match tcx.try_get_global_alloc(aid) {
                     Some(GlobalAlloc::Static(did)) => format!("{{\"static\":{}}}", esc(&tcx.def_path_str(did))),
                     Some(GlobalAlloc::Function { instance }) => format!("{{\"fnptr\":{}}}", esc(&tcx.def_path_str(instance.def_id()))),
-                    Some(GlobalAlloc::Memory(_)) => "{\"mem\":true}".to_string(),
+                    Some(GlobalAlloc::Memory(alloc)) => {
+                        // reference to a promoted scalar (e.g. `&StateType::N`): read the pointee
+                        let mut out = "{\"mem\":true}".to_string();
+                        if let ty::Ref(_, pointee, _) = ty.kind() {
+                            let is_scalar = pointee.is_integral() || pointee.is_bool() || matches!(pointee.kind(), ty::Adt(d, _) if d.is_enum() && d.variants().iter().all(|v| v.fields.is_empty()));
+                            if is_scalar {
+                                let typing_env = TypingEnv::fully_monomorphized();
+                                if let Ok(layout) = tcx.layout_of(typing_env.as_query_input(*pointee)) {
+                                    let size = layout.size.bytes() as usize;
+                                    let off = ptr.into_raw_parts().1.bytes() as usize;
+                                    let a = alloc.inner();
+                                    if size > 0 && size <= 16 && off + size <= a.len() {
+                                        let bytes = a.inspect_with_uninit_and_ptr_outside_interpreter(off..off + size);
+                                        let mut v: u128 = 0;
+                                        for (i, b) in bytes.iter().enumerate() {
+                                            v |= (*b as u128) << (8 * i);
+                                        }
+                                        let mut extra = String::new();
+                                        if let ty::Adt(def, _) = pointee.kind() {
+                                            for (vidx, d) in def.discriminants(tcx) {
+                                                if d.val == v {
+                                                    let _ = write!(extra, ",\"variant\":{},\"vname\":{}", vidx.as_usize(), esc(def.variant(vidx).name.as_str()));
+                                                }
+                                            }
+                                        }
+                                        out = format!("{{\"ref_int\":\"{}\",\"bits\":{}{}}}", v, size * 8, extra);
+                                    }
+                                }
+                            }
+                        }
+                        out
+                    }
                     _ => "{\"ptr\":true}".to_string(),
                 }
             }
@@ -470,6 +507,9 @@ impl<'tcx> Cx<'tcx> {
                     AssertKind::OverflowNeg(a) => format!("{{\"kind\":\"OverflowNeg\",\"ops\":[{}]}}", self.operand(owner, body, a)),
                     AssertKind::DivisionByZero(a) => format!("{{\"kind\":\"DivisionByZero\",\"ops\":[{}]}}", self.operand(owner, body, a)),
                     AssertKind::RemainderByZero(a) => format!("{{\"kind\":\"RemainderByZero\",\"ops\":[{}]}}", self.operand(owner, body, a)),
+                    AssertKind::NullPointerDereference => "{\"kind\":\"NullPointerDereference\",\"ops\":[]}".to_string(),
+                    AssertKind::MisalignedPointerDereference { .. } => "{\"kind\":\"MisalignedPointerDereference\",\"ops\":[]}".to_string(),
+                    AssertKind::InvalidEnumConstruction(_) => "{\"kind\":\"InvalidEnumConstruction\",\"ops\":[]}".to_string(),
                     other => format!("{{\"kind\":{},\"ops\":[]}}", esc(&format!("{:?}", std::mem::discriminant(other)))),
                 };
                 format!(
